@@ -2,9 +2,10 @@
 
 use serde_json::json;
 
-use super::c13::{oracle, spec};
+use super::c13::{coordination_only, oracle, spec};
 use crate::srv::{Ev, MsgPolicy, Stray, Walk, comp_id, make_policies, run_walk};
-use crate::util::{Report, Tier, par_map};
+use crate::srvx::{SrvSpace, explore};
+use crate::util::{Budget, Report, Tier, par_map};
 
 fn menu(n: usize, party: usize, thorough: bool) -> Vec<Stray> {
     let mut v = vec![Stray::ScheduleSame, Stray::Run];
@@ -22,9 +23,22 @@ fn menu(n: usize, party: usize, thorough: bool) -> Vec<Stray> {
             v.push(Stray::Msg { from, empty });
         }
     }
+    // a further validate; only injected where the state machine is past the point of accepting one
+    v.push(Stray::ValidateDup { wrong_hash: false });
+    v.push(Stray::ValidateDup { wrong_hash: true });
     v.sort();
     v.dedup();
     v
+}
+
+/// validate is valid in Init and AwaitingValidation only: a further one is invalid for the state once
+/// a validate has been delivered to the party or the party has been scheduled as leader
+fn validate_is_invalid(prefix: &[Ev], party: usize, leader: usize) -> bool {
+    prefix.iter().any(|e| match e {
+        Ev::Deliver(k) => k.kind == crate::srv::Kind::Validate && k.to as usize == party,
+        Ev::Schedule { party: p, .. } => *p as usize == party && party == leader,
+        _ => false,
+    })
 }
 
 pub fn main(tier: Tier, seed: u64) -> i32 {
@@ -39,7 +53,10 @@ pub fn main(tier: Tier, seed: u64) -> i32 {
         vec![(2, 0, vec![0, 1], vec![true, true]), (3, 1, vec![2], vec![true, true, true])]
     };
     let mut jobs = vec![];
-    let mut bases = vec![];
+    let mut bases: Vec<(usize, Vec<Vec<polytune_server_core::Policy>>, Vec<Ev>, bool)> = vec![];
+    let xbudget = Budget::new(if tier.is_thorough() { 600.0 } else { 15.0 });
+    let mut coord_states = 0u64;
+    let mut coord_capped = false;
     for (ci, (n, leader, consts, outs)) in cfgs.iter().enumerate() {
         let (sp, expected) = spec(*n, *leader, consts, outs.clone());
         let pols = vec![make_policies(&sp, comp_id(seed, 1400 + ci as u64))];
@@ -83,26 +100,56 @@ pub fn main(tier: Tier, seed: u64) -> i32 {
                     if matches!(cmd, Stray::ScheduleSame | Stray::ScheduleOtherParty(_)) && at <= own_sched {
                         continue;
                     }
-                    jobs.push((ci * 2 + variant, party, cmd.clone(), at));
+                    if matches!(cmd, Stray::ValidateDup { .. }) && !validate_is_invalid(&base.history[..at.min(len)], party, *leader) {
+                        continue;
+                    }
+                    jobs.push((bases.len(), party, cmd.clone(), at));
                 }
             }
         }
-        bases.push((ci * 2 + variant, pols.clone(), base, expected));
+        bases.push((ci, pols.clone(), base.history.clone(), expected));
       }
+        // every reachable coordination state (C13 explorer): each stray command right there, then the
+        // run continues in default order.  n=3 only in the thorough tier.
+        if *n == 2 || tier.is_thorough() {
+            let space = SrvSpace { n: *n, concurrency: 1, policies: pols.clone(), seed: crate::exec::mix(seed, 1400 + ci as u64), msg_policy: MsgPolicy::Eager };
+            let ex = explore(&space, vec![], &coordination_only, &xbudget, if tier.is_thorough() { 6_000 } else { 3_000 }, true);
+            coord_capped |= ex.capped;
+            for m in ex.machinery.iter().take(2) {
+                rep.machinery(m.clone());
+            }
+            coord_states += ex.complete.len() as u64;
+            for (h, _) in ex.complete.iter() {
+                for party in 0..*n {
+                    let own_sched = h.iter().any(|e| matches!(e, Ev::Schedule { party: p, .. } if *p as usize == party));
+                    for cmd in menu(*n, party, false) {
+                        if matches!(cmd, Stray::ScheduleSame | Stray::ScheduleOtherParty(_)) && !own_sched {
+                            continue;
+                        }
+                        if matches!(cmd, Stray::ValidateDup { .. }) && !validate_is_invalid(h, party, *leader) {
+                            continue;
+                        }
+                        jobs.push((bases.len(), party, cmd.clone(), h.len()));
+                    }
+                }
+                bases.push((ci, pols.clone(), h.clone(), expected));
+            }
+        }
     }
-    let results = par_map(&jobs, |_, _, (ci, party, cmd, at)| {
-        let (_, pols, base, _) = bases.iter().find(|b| b.0 == *ci).unwrap();
-        let (n, _, _, _) = &cfgs[*ci / 2];
-        let walk = Walk { injections: vec![(*at, Ev::Stray { pol: 0, party: *party as u8, cmd: cmd.clone() })], prefer: base.history.clone(), max_steps: 10_000, ..Default::default() };
-        run_walk(*n, 1, pols.clone(), walk, MsgPolicy::Explicit, crate::exec::mix(seed, 1400 + (*ci / 2) as u64))
+    let results = par_map(&jobs, |_, _, (bi, party, cmd, at)| {
+        let (ci, pols, base, _) = &bases[*bi];
+        let (n, _, _, _) = &cfgs[*ci];
+        let walk = Walk { injections: vec![(*at, Ev::Stray { pol: 0, party: *party as u8, cmd: cmd.clone() })], prefer: base.clone(), max_steps: 10_000, ..Default::default() };
+        run_walk(*n, 1, pols.clone(), walk, MsgPolicy::Explicit, crate::exec::mix(seed, 1400 + *ci as u64))
     });
     let mut rejected = 0u64;
     let mut accepted = 0u64;
     let mut unanswered = 0u64;
     let mut distinct = std::collections::HashSet::new();
-    for ((ci, party, cmd, at), r) in jobs.iter().zip(results.iter()) {
-        let (n, leader, consts, outs) = &cfgs[*ci / 2];
-        let expected = bases.iter().find(|b| b.0 == *ci).map(|b| b.3).unwrap_or(false);
+    for ((bi, party, cmd, at), r) in jobs.iter().zip(results.iter()) {
+        let ci = &bases[*bi].0;
+        let (n, leader, consts, outs) = &cfgs[*ci];
+        let expected = bases[*bi].3;
         let r = match r {
             Ok(r) => r,
             Err(e) => {
@@ -113,7 +160,7 @@ pub fn main(tier: Tier, seed: u64) -> i32 {
         rep.evaluations += 1;
         let snap = &r.snapshot;
         let desc = format!("n={n} leader={leader} consts_from={consts:?}: {cmd:?} sent to party {party} after event #{at}");
-        let replay = json!({"kind":"srv14","n":n,"leader":leader,"consts_from":consts,"outputs":outs,"party":party,"cmd":cmd,"at":at});
+        let replay = json!({"kind":"srv14","n":n,"leader":leader,"consts_from":consts,"outputs":outs,"party":party,"cmd":cmd,"at":at,"history":r.history});
         let cmd_class = match cmd {
             Stray::ScheduleSame | Stray::ScheduleOtherParty(_) => "schedule",
             Stray::Run => "run",
@@ -127,9 +174,10 @@ pub fn main(tier: Tier, seed: u64) -> i32 {
         }
         let call = snap.calls.iter().find(|c| c.what.starts_with("stray:") && c.party as usize == *party);
         match call.map(|c| &c.result) {
+            Some(Err(e)) if e == "NotFound" && matches!(cmd, Stray::ValidateDup { .. }) => {}
             Some(Err(_)) => {
                 rejected += 1;
-                distinct.insert((ci, *party, format!("{cmd:?}"), *at));
+                distinct.insert((*bi, *party, format!("{cmd:?}"), *at));
                 // answered with an error: the computation under way must be unaffected
                 if let Err((class, d)) = oracle(snap, *n, outs, expected, 1) {
                     rep.violation(format!("outcome_changed:{cmd_class}:{class}"), format!("{desc}: the stray command was answered with an error, yet {d}"), replay.clone());
@@ -137,6 +185,9 @@ pub fn main(tier: Tier, seed: u64) -> i32 {
             }
             Some(Ok(())) => {
                 accepted += 1;
+                if matches!(cmd, Stray::ValidateDup { .. }) {
+                    rep.violation("validate_accepted_in_invalid_state", format!("{desc}: answered Ok although the state machine had already received its validate (or leads the computation)"), replay.clone());
+                }
                 // an MPC message naming an unknown sender can never be legitimate
                 if let Stray::Msg { from, .. } = cmd
                     && *from as usize >= *n
@@ -144,19 +195,25 @@ pub fn main(tier: Tier, seed: u64) -> i32 {
                     rep.violation("unknown_sender_accepted", format!("{desc}: answered Ok"), replay.clone());
                 }
             }
-            None => unanswered += 1,
+            None => {
+                unanswered += 1;
+                if matches!(cmd, Stray::ValidateDup { .. }) {
+                    rep.violation("validate_swallowed_in_invalid_state", format!("{desc}: never answered"), replay.clone());
+                }
+            }
         }
         if rep.samples.len() < 4 && rep.evaluations % 97 == 3 {
             rep.sample(json!({"case": desc, "stray_result": call.map(|c| format!("{:?}", c.result)), "outputs": snap.outputs.iter().map(|o| format!("party {} <- {:?}", o.party, o.result)).collect::<Vec<_>>()}));
         }
     }
     rep.distinct_nontrivial = distinct.len() as u64;
-    rep.exhaustive = Some(true);
+    rep.exhaustive = Some(!coord_capped);
+    rep.set("coordination_states_with_stray_commands", json!(coord_states));
+    rep.set("coordination_exploration_capped", json!(coord_capped));
     rep.set("stray_rejected", json!(rejected));
     rep.set("stray_accepted_as_valid_for_state", json!(accepted));
     rep.set("stray_never_answered", json!(unanswered));
-    rep.set("base_history_lengths", json!(bases.iter().map(|b| b.2.history.len()).collect::<Vec<_>>()));
-    rep.rule = "base = default-order complete history (with constants, explicit MPC-message events) for n=2 and n=3; at every prefix length among coordination events and at spaced positions during MPC, each stray command (duplicate schedule / schedule with another party's policy / run / consts from in- and out-of-range parties / mpc_msg with sender in {0, own, n-1, n, n+5, usize::MAX} x empty/non-empty) is sent once to each party; then the base history is continued. Oracle: no actor panics; an unknown sender is never accepted; when the stray command was answered with an error every C13 end-of-history assertion still holds. distinct non-trivial = rejected stray commands by (configuration, party, command, position)".into();
+    rep.rule = "base = default-order complete history (with constants, explicit MPC-message events) for n=2 and n=3; at every prefix length among coordination events and at spaced positions during MPC, each stray command (duplicate schedule / schedule with another party's policy / run / consts from in- and out-of-range parties / mpc_msg with sender in {0, own, n-1, n, n+5, usize::MAX} x empty/non-empty / a further validate, with the right and with a wrong program hash, wherever the party has already received its validate or leads the computation) is sent once to each party; then the base history is continued. In addition (n=2; n=3 in the thorough tier) every command of the menu is sent to each party in every reachable coordination state (all histories of schedule / validate / run / constants / compile events up to commutation, from the C13 explorer). Oracle: no actor panics; an unknown sender is never accepted; a further validate is answered with an error; when the stray command was answered with an error every C13 end-of-history assertion still holds. distinct non-trivial = rejected stray commands by (configuration, party, command, position)".into();
     rep.assumptions = vec!["a stray command that is valid for the current state (answered Ok) is indistinguishable from the legitimate one and is only checked for panics".into()];
     rep.finish()
 }
